@@ -313,6 +313,11 @@ reg(Spec("C13", "Props/C13.v", harness="workers", overlay={},
       "the leaked opener goroutine and a Maintain() call in flight while Read closes the reassembler are not modelled",
       "'its context' of the sshd-side worker is the context handed to Ingest / Process / ProcessSshdLogEntry, not the one NewSshdProcessor was configured with (scenarios child-ctx/*: only the former is cancelled); on the built binary it is the errgroup's context, cancelled by a sibling's failure while the process context lives on (sibling-failure/*: racy, repeated 5/12/20 times per variant)"],
     modelled=WORKERS_MODELLED, extra_targets=["Model/ErrgroupCheck.vo"]))
+SPECS["C13"].assumptions = SPECS["C13"].assumptions + [
+    "state 'blocked reading an idle pipe' also with an UNTERMINATED PARTIAL RECORD in the read buffer (harness/workers/c13_partial.go, scenarios partial-record/*): the writer has sent the beginning of a record "
+    "and pauses, the reader has consumed it (observed: FIONREAD on the pipe = 0), then the context is cancelled - with every downstream state: the audit line channel of capacity 0 / 1 / 3 / 16 full and its consumer "
+    "stopped, or empty; sshd side: the partial record already is a recognisable accepted-login line of each hand-off form (only its newline is missing) or is cut in the middle, unbuffered logins channel nobody "
+    "receives from, processor configured on the worker's context or on a longer-lived one; the worker must return within 2 s and deliver nothing afterwards"]
 reg(Spec("C08", "Props/C08.v", harness="workers", overlay={},
     args_quick=["-prop", "C08"],
     args_thorough=["-prop", "C08", "-n", "3"],
@@ -354,6 +359,10 @@ SPECS["C03"].assumptions = SPECS["C03"].assumptions + [
 SPECS["C08"].thorough_extra = SPECS["C08"].thorough_extra + [
     ("auditproc", AUDITPROC_OVERLAY, ["-mode", "cancelfull", "-n", "4"], False, ["-mode", "cancelfull", "-n", "1"])]
 SPECS["C08"].assumptions = SPECS["C08"].assumptions + [
+    "binary scenarios, a pipe worker still waiting for its FIRST writer (harness/workers/c08_openwait.go, variants open-wait/<pipe>/<disturbance>): one of the two FIFOs never gets a writer, so its worker is parked in "
+    "open(2) (observed in /proc/<pid>/task/*/syscall of the child where readable, otherwise given 300 ms); while it waits the FIFO's directory entry is left alone / renamed away and re-created / removed / replaced "
+    "by a regular file; then every stop cause that does not need that pipe (end-of-stream or an unparsable record on the other pipe, a login the correlator refuses, an event write failure, SIGTERM, SIGINT): exit within "
+    "5 s, non-zero on a failure. Not run: a FIFO made unwritable for the daemon's user (the harness runs as root, for which mode bits do not apply)",
     "binary scenarios, the audit side failing while the sshd side hands logins over (harness/workers/c08_handoff.go): a login the correlator rejects, an unparsable audit line, "
     "audit-pipe end-of-stream and the events sink breaking under a stream of session events, each injected while accepted logins of all four forms arrive on the sshd pipe - in ONE "
     "write with / right before the fault (burst: 360 lines, no waiting in between) or from a writer that keeps the pipe full (flood: fault 20-60 ms after events flow; racy, twice per "
